@@ -7,8 +7,10 @@
      becomes an association list position -> index in which a later entry shadows an earlier one
      (Go map assignment).  Node ids are assumed pairwise distinct.
    * reverseAdjacentList[t] and adjacentMatrix[s][t], which the constructor fills by one loop over
-     the connections, are given in closed form: the sources of the connections into t, in order,
-     and the weight of the LAST connection s -> t (0 if none).
+     the connections, are given per entry as the same loop restricted to that entry: the sources of
+     the connections into t in order of FIRST occurrence (a source that reverseAdjacentList[t]
+     already holds is not appended again), and the weights of the connections s -> t: the first one
+     is assigned, every later (parallel) one is added to the entry, in order (0 if none).
    * Modules (control nodes) are not modelled: FastModularNetworkSolver.modules is empty.
    * [new_fast] refuses (GoPanic) parameter sets whose indices are out of range; the real
      constructor or the first sweep would panic on those.  Solvers built by FastNetworkSolver
@@ -122,11 +124,24 @@ Definition fast_of_net (n : net F) : res fnet :=
   | e => res_cast e (GoPanic 0) end
   | e => res_cast e (GoPanic 0) end.
 
-(* reverseAdjacentList[t] and adjacentMatrix[s][t] *)
-Definition radj (fn : fnet) (t : nat) : list nat :=
-  map fl_src (filter (fun c => (fl_tgt c =? t)%nat) (f_conns fn)).
+(* reverseAdjacentList[t] and adjacentMatrix[s][t]; the constructor's loop body is
+     if containsIndex(reverseAdjacentList[crt], crs) { adjacentMatrix[crs][crt] += Weight; continue }
+     adjacentList[crs] = append(.., crt); reverseAdjacentList[crt] = append(.., crs); adjacentMatrix[crs][crt] = Weight *)
+Definition contains_index (l : list nat) (i : nat) : bool := existsb (fun v => (v =? i)%nat) l.
+
+(* one iteration as seen by reverseAdjacentList[t] *)
+Definition radj_step (t : nat) (acc : list nat) (c : flink) : list nat :=
+  if (fl_tgt c =? t)%nat then (if contains_index acc (fl_src c) then acc else acc ++ [fl_src c]) else acc.
+Definition radj (fn : fnet) (t : nat) : list nat := fold_left (radj_step t) (f_conns fn) [].
+
+(* one iteration as seen by adjacentMatrix[s][t]; the flag says whether reverseAdjacentList[t] holds s already,
+   that is whether a connection s -> t came before (the list gets s exactly at the first one) *)
+Definition adj_step (s t : nat) (st : bool * F) (c : flink) : bool * F :=
+  if ((fl_src c =? s) && (fl_tgt c =? t))%nat
+  then (true, if fst st then fadd NF (snd st) (fl_w c) else fl_w c)
+  else st.
 Definition adj_w (fn : fnet) (s t : nat) : F :=
-  fold_left (fun acc c => if ((fl_src c =? s) && (fl_tgt c =? t))%nat then fl_w c else acc) (f_conns fn) (fzero NF).
+  snd (fold_left (adj_step s t) (f_conns fn) (false, fzero NF)).
 
 (* ---------- mutable state: neuronSignals, neuronSignalsBeingProcessed, activated, inActivation,
    lastActivation ---------- *)
@@ -345,7 +360,9 @@ Arguments proc_links {F}.
 Arguments proc_incoming {F}.
 Arguments new_fast {F}.
 Arguments fast_of_net {F}.
+Arguments radj_step {F}.
 Arguments radj {F}.
+Arguments adj_step {F}.
 Arguments adj_w {F}.
 Arguments fast_init {F}.
 Arguments set_sig {F}.
